@@ -253,6 +253,7 @@ class Problem:
         self.assume_prob_clamp = assume_prob_clamp
         self.env_range = env_range
         self.var_hook = var_hook  # name -> float sampler override (e.g. positive-only variables)
+        self.max_sat = 6
         self.extra_assumptions = []
         self.stats = dict(queries=0, unsat=0, sat=0, unknown=0, solver_s=0.0, nf_s=0.0)
 
@@ -330,11 +331,19 @@ class Problem:
         zr = oracle.zr
         allvars = sorted(S.variables(roots), key=lambda v: v.args[0])
         results = []
+        nsat = 0
+        twin_names = getattr(self, "twin_names", set())
         for g in self.goals:
             r = Result(name=g.name, kind=g.kind, problem=self.name)
             if g.meta:
                 r["meta"] = g.meta
             t1 = time.time()
+            if nsat >= self.max_sat and g.name not in twin_names:
+                # several counterexamples already found in this job: the rest is not needed for the verdict
+                r["verdict"] = "skipped"
+                r["seconds"] = 0.0
+                results.append(r)
+                continue
             try:
                 if g.kind == "eq":
                     self._solve_eq(g, conv, zr, rnd, allvars, r)
@@ -356,6 +365,8 @@ class Problem:
             if _DEBUG:
                 print("  [%s] %s: %s %.2fs terms=%s groups=%s %s" % (self.name, g.name, r["verdict"], r["seconds"], r.get("residual_terms"), r.get("groups"), r.get("detail", "")[:100]), flush=True)
             self.stats["queries"] += 1
+            if r["verdict"] == "sat" and g.name not in twin_names:
+                nsat += 1
             self.stats[r["verdict"]] = self.stats.get(r["verdict"], 0) + 1
             results.append(r)
         self.stats["total_s"] = round(time.time() - t0, 3)
@@ -397,16 +408,17 @@ class Problem:
             listed.append(a)
         return sorted(set(listed))
 
-    def _float_check(self, g, conv, resid, rnd, allvars):
-        """cross-evaluates DAG vs normal form at random points; returns (best_env, best_diff, scale)"""
+    def _float_check(self, g, conv, groups, rnd, allvars):
+        """cross-evaluates DAG vs normal form (sum of the per-denominator groups) at a few random rational
+        parameter points shared by all goals of the problem; returns (best_env, best_diff, scale, all_zero)"""
         best = None
         npts = 3
         tried = 0
         attempts = 0
+        all_zero = True
         if not hasattr(self, "_envs"):
             self._envs = []
         while tried < npts and attempts < 12:
-            # the same few parameter points are shared by all goals of a problem (fewer distinct replays)
             if attempts >= len(self._envs):
                 self._envs.append((self._random_env(rnd, allvars), {}, {}, ([], {})))
             env, mm, vm, rc = self._envs[attempts]
@@ -415,60 +427,85 @@ class Problem:
                 fa, ma = S.evalf_mag(conv.canon(g.a), env, mm, vm)
                 fb, mb = S.evalf_mag(conv.canon(g.b), env, mm, vm) if g.b is not None else (0.0, 0.0)
                 vals = self._ring_values(conv, env, rc)
-                fr = resid.evalf(vals)
+                fr = math.fsum(gr.evalf(vals) for gr in groups)
+                mg = math.fsum(abs(gr.evalf(vals)) for gr in groups)
             except (ValueError, ZeroDivisionError, OverflowError):
                 continue
             tried += 1
             d = fa - fb
             scale = ma + mb + 1e-300
-            if not (abs(d - fr) <= 1e-7 * scale + 1e-9 * abs(fr) + 1e-12):
+            if not (abs(d - fr) <= 1e-7 * scale + 1e-9 * abs(fr) + 1e-9 * mg + 1e-12):
                 raise Inconclusive(
                     "encoder self-check failed: DAG difference %.12g vs normal form %.12g (scale %.3g)" % (d, fr, scale)
                 )
+            if abs(d) > 1e-9 * scale:
+                all_zero = False
             if best is None or abs(d) / scale > best[1] / best[2]:
                 best = (env, abs(d), scale)
         if best is None:
             raise Inconclusive("no random point inside the domain of definition found")
-        return best
+        return best[0], best[1], best[2], all_zero
 
     def _solve_eq(self, g, conv, zr, rnd, allvars, r):
         t0 = time.time()
         # a - b is flattened through additions and summed per denominator: if every group vanishes the
         # residual is zero without ever multiplying out the common denominator (DESIGN.md 1.3, decomposition)
         groups = conv.convert_grouped([(Fraction(1), g.a), (Fraction(-1), g.b)])
-        resid = conv.zero if not groups else conv.total(groups)
         r["groups"] = len(groups)
         self.stats["nf_s"] += time.time() - t0
-        r["residual_terms"] = len(resid.n.t) if not resid.is_zero() else 0
-        env, diff, scale = self._float_check(g, conv, resid, rnd, allvars)
-        zero = resid.is_zero()
+        env, diff, scale, numerically_zero = self._float_check(g, conv, groups, rnd, allvars)
+        if len(groups) > 1 and numerically_zero:
+            # groups do not vanish one by one although the value does: only the full combination can decide
+            t0 = time.time()
+            groups = [conv.total(groups)]
+            groups = [x for x in groups if not x.is_zero()]
+            self.stats["nf_s"] += time.time() - t0
+        zero = not groups
+        r["residual_terms"] = sum(len(x.n.t) for x in groups)
         if zero and diff > 1e-6 * scale:
             raise Inconclusive("normal form is zero but the DAGs differ numerically (%.3g)" % diff)
-        if not zero and diff <= 1e-9 * scale:
+        if not zero and numerically_zero:
             raise Inconclusive(
-                "numerically equal but symbolically different residual (%d terms): encoding too weak" % len(resid.n.t)
+                "numerically equal but symbolically different residual (%d terms): encoding too weak" % r["residual_terms"]
             )
         t1 = time.time()
         s = z3.SolverFor("QF_NRA")
         s.set("timeout", self.timeout_ms)
         if zero:
-            # the residual polynomial is identically zero: the query is  constraints /\ 0 != 0
-            for c in zr.constraints(set()):
-                s.add(c)
-            s.add(zr.poly(resid.n) != 0)
+            # the residual is identically zero: the query is  constraints /\ 0 != 0
+            s.add(z3.RealVal(0) != 0)
             res = str(s.check())
             self.stats["solver_s"] += time.time() - t1
             if res != "unsat":
                 raise Inconclusive("solver answered %s on a zero residual" % res)
             r["verdict"] = "unsat"
             return
-        # counterexample construction around the rational parameter point env
+        # counterexample construction around the rational parameter point env: the residual is the sum of the groups
         vals = self._ring_values(conv, env)
-        vs = zr.closure(resid.n.variables() | set().union(*[p.variables() for p, _ in resid.d.values()]) if resid.d else resid.n.variables())
+        vs0 = set()
+        for gr in groups:
+            vs0 |= gr.n.variables()
+            for p, _ in gr.d.values():
+                vs0 |= p.variables()
+        vs = zr.closure(vs0)
         ring = conv.ring
+
+        def residual_expr():
+            terms = []
+            dens = []
+            for gr in groups:
+                t = _q(gr.s) * zr.poly(gr.n)
+                for key, (p, e) in gr.d.items():
+                    zp = zr.poly(p)
+                    dens.append(zp)
+                    for _ in range(e):
+                        t = t / zp
+                terms.append(t)
+            return (z3.Sum(terms) if len(terms) > 1 else terms[0]), dens
+
         nrel = sum(1 for i in vs if ring.kind[i] in ("R", "S"))
         res, mode = "unknown", None
-        if nrel <= 3:
+        if nrel <= 3 and len(groups) == 1:
             # exact: free generators fixed to rationals near their values at env, relation variables solved by z3
             s.set("timeout", 3000)
             for c in zr.constraints(vs):
@@ -482,13 +519,14 @@ class Problem:
                     s.add(x == _q(rational_near(vals[i])))
                 elif k == "S":
                     s.add(x >= 0 if vals[i] >= 0 else x <= 0)
-            for key, (p, e) in resid.d.items():
-                s.add(zr.poly(p) != 0)
-            s.add(zr.poly(resid.n) != 0)
+            expr, dens = residual_expr()
+            for zp in dens:
+                s.add(zp != 0)
+            s.add(expr != 0)
             res, mode = str(s.check()), "exact point of the variety"
         if res != "sat":
-            # relaxed: relation variables (towers of square roots are expensive for nlsat) are boxed within
-            # 1e-9 of their values instead of being tied by the exact relation; the model is then a point
+            # relaxed: relation variables (towers of square roots are expensive for nlsat) are fixed to rationals
+            # within 1e-9 of their values instead of being tied by the exact relation; the model is then a point
             # within 1e-8 of the variety.  Either way the model is only a candidate: the replay decides.
             s = z3.SolverFor("QF_NRA")
             s.set("timeout", self.timeout_ms)
@@ -497,8 +535,7 @@ class Problem:
                 k = ring.kind[i]
                 x = zr.v(i)
                 if k == "V":
-                    q = Fraction(vals[i])
-                    s.add(x == _q(q))
+                    s.add(x == _q(Fraction(vals[i])))
                 elif k in ("E", "C", "L"):
                     q = rational_near(vals[i])
                     approx[i] = float(q)
@@ -510,13 +547,12 @@ class Problem:
                     if k == "S" and vals[i] < 0:
                         v = -v
                     approx[i] = v
-                    d = 1e-9 * max(1.0, abs(v))
-                    x = zr.v(i)
-                    s.add(x >= _q(Fraction(v - d)), x <= _q(Fraction(v + d)))
-            for key, (p, e) in resid.d.items():
-                s.add(zr.poly(p) != 0)
-            s.add(zr.poly(resid.n) != 0)
-            res, mode = str(s.check()), "point within 1e-8 of the variety (relation variables boxed)"
+                    s.add(zr.v(i) == _q(Fraction(v).limit_denominator(10 ** 12)))
+            expr, dens = residual_expr()
+            for zp in dens:
+                s.add(zp != 0)
+            s.add(expr != 0)
+            res, mode = str(s.check()), "point within 1e-8 of the variety (relation variables fixed numerically)"
         self.stats["solver_s"] += time.time() - t1
         if res == "sat":
             r["verdict"] = "sat"
@@ -525,7 +561,7 @@ class Problem:
             r["scale"] = scale
             r["model"] = mode
         else:
-            raise Inconclusive("non-zero residual (%d terms) but solver answered %s near the sampled point" % (len(resid.n.t), res))
+            raise Inconclusive("non-zero residual (%d terms) but solver answered %s near the sampled point" % (r["residual_terms"], res))
 
     def _solve_sign(self, g, conv, zr, rnd, allvars, r):
         fa = conv.convert(g.a)
